@@ -71,18 +71,37 @@ func concurrentCase(idx int64, r *rand.Rand) {
 		last   int
 	}
 	recs := make([]*rec, 1+r.IntN(3))
+	together := r.IntN(2) == 0 // the listeners are registered at the same moment from different goroutines
+	if together {
+		recs = make([]*rec, 2+r.IntN(7))
+	}
+	var regWG sync.WaitGroup
+	regBar := make(chan struct{})
 	for i := range recs {
 		rc := &rec{}
 		recs[i] = rc
-		l.NotifyOnChange(func(v int) {
-			for k := 0; k < 3; k++ {
-				runtime.Gosched()
-			}
-			rc.mu.Lock()
-			rc.called++
-			rc.last = v
-			rc.mu.Unlock()
-		})
+		register := func() {
+			l.NotifyOnChange(func(v int) {
+				for k := 0; k < 3; k++ {
+					runtime.Gosched()
+				}
+				rc.mu.Lock()
+				rc.called++
+				rc.last = v
+				rc.mu.Unlock()
+			})
+		}
+		if together {
+			regWG.Add(1)
+			go func() { defer regWG.Done(); <-regBar; register() }()
+		} else {
+			register()
+		}
+	}
+	close(regBar)
+	regWG.Wait()
+	if together {
+		rt.Count("concurrent_registration_cases", 1)
 	}
 	nG := 2 + r.IntN(5)
 	seeds := make([]uint64, nG)
@@ -109,6 +128,18 @@ func concurrentCase(idx int64, r *rand.Rand) {
 	wg.Wait()
 	final := l.EstimatedLimit()
 	rt.Count("concurrent_cases", 1)
+	anyCalled := false
+	for _, rc := range recs {
+		anyCalled = anyCalled || rc.called > 0
+	}
+	for i, rc := range recs {
+		// every listener was registered before the first sample: if one of them heard of a change, all of them did
+		if anyCalled && rc.called == 0 {
+			rt.Violation("C16/"+kind+"/concurrent/registered-listener-never-notified", idx, rt.J{"spec": spec, "listener": i, "listeners": len(recs),
+				"registered_at_the_same_moment": together, "estimate": final})
+			return
+		}
+	}
 	for i, rc := range recs {
 		if rc.called > 0 {
 			rt.Count("concurrent_listener_final_checks", 1)
